@@ -5,6 +5,9 @@ use std::fmt::{Debug, Formatter};
 use std::net::SocketAddr;
 use uuid::Uuid;
 
+/// The session server endpoint that confirms that a player has joined (the parameters are appended url-encoded).
+const HAS_JOINED_URL: &str = "https://sessionserver.mojang.com/session/minecraft/hasJoined";
+
 #[derive(Default)]
 pub struct MojangAdapter {
     server_id: String,
@@ -38,13 +41,15 @@ impl AuthenticationAdapter for MojangAdapter {
 
         // issue a request to Mojang's authentication endpoint
         let username = user.0;
-        let url = format!(
-            "https://sessionserver.mojang.com/session/minecraft/hasJoined?username={username}&serverId={hash}"
-        );
+        let url = reqwest::Url::parse_with_params(
+            HAS_JOINED_URL,
+            &[("username", username), ("serverId", hash.as_str())],
+        )
+        .expect("hardcoded session server url is valid");
         #[cfg(feature = "verif-hooks")]
         let url: String = crate::verif_hooks::rebase(&url.to_string());
         let profile = HTTP_CLIENT
-            .get(&url)
+            .get(url)
             .send()
             .await
             .map_err(|err| passage_adapters::Error::FailedFetch {
